@@ -18,8 +18,15 @@ CXXFLAGS = ['-std=c++17', '-O1', '-g', '-fsanitize=address,undefined', '-fno-san
 
 
 def sh(cmd, cwd=None, timeout=1800, env=None, input=None):
-    p = subprocess.run(cmd, cwd=cwd, stdout=subprocess.PIPE, stderr=subprocess.STDOUT, timeout=timeout,
-                       env=env, input=input, text=True, shell=isinstance(cmd, str))
+    try:
+        p = subprocess.run(cmd, cwd=cwd, stdout=subprocess.PIPE, stderr=subprocess.STDOUT, timeout=timeout,
+                           env=env, input=input, text=True, shell=isinstance(cmd, str), errors='replace')
+    except subprocess.TimeoutExpired as t:
+        # a command that does not come back (e.g. a corrupted container walked for ever) is a failure with exit status 124, not a crash of the check
+        o = t.stdout or ''
+        if isinstance(o, bytes):
+            o = o.decode(errors='replace')
+        return 124, o + f'\nTIMEOUT: no result after {timeout} s: ' + (cmd if isinstance(cmd, str) else ' '.join(map(str, cmd)))
     return p.returncode, p.stdout
 
 
